@@ -21,6 +21,7 @@ type shOpts struct {
 	gapMS       []int64
 	demands     []int64
 	reconfP     float64 // v2 SetShared/SetReserved steps
+	repeatP     float64 // a GiveMe step repeats the previous figure of the same instance
 	crashP      float64
 	lifeP       float64 // extra Provision/Start/Stop calls in odd orders
 	noMgrP      float64
@@ -109,6 +110,7 @@ func genShared(rng *rand.Rand, name string, o shOpts) *SScenario {
 	var steps []SStep
 	started := make([]bool, n)
 	stopped := make([]bool, n)
+	lastAsk := map[int]int64{}
 	for i := 0; i < n; i++ {
 		adv()
 		if sc.Gen == 1 {
@@ -172,7 +174,12 @@ func genShared(rng *rand.Rand, name string, o shOpts) *SScenario {
 		case chance(rng, 0.3):
 			steps = append(steps, SStep{At: t, Inst: i, Kind: "probe"})
 		default:
-			steps = append(steps, SStep{At: t, Inst: i, Kind: "giveme", A: []int64{pick(rng, o.demands...)}})
+			v := pick(rng, o.demands...)
+			if last, ok := lastAsk[i]; ok && o.repeatP > 0 && chance(rng, o.repeatP) {
+				v = last // the same figure again (the Batcher repeats its demand on every capacity tick)
+			}
+			lastAsk[i] = v
+			steps = append(steps, SStep{At: t, Inst: i, Kind: "giveme", A: []int64{v}})
 		}
 	}
 	// let it run, probing
@@ -226,6 +233,8 @@ func GenShared(family string, seed int64, idx int) *SScenario {
 		o.horizon = 50 * SEC
 		o.faultP = 0.05
 		o.lifeP = 0
+		o.reconfP = 0.12 // v2: the reserve or the shared capacity moves between two GiveMe calls
+		o.repeatP = 0.35
 	case "sh-multi": // several instances on one store, latencies, crashes
 		o.nInst = []int{2, 3, 4}
 		o.shareds = []int64{1, 2, 4, 6}
